@@ -30,6 +30,9 @@ SHAPES = {
     "DC": [["docs", "README"], ["docs", "readme"], ["Sub", "x"], ["sub", "x"]],   # names differing only in case
     "DU": [["ünï cödé", "ç é.bin"], [".hidden"], ["sp ace", "tab\there"], ["名前.dat"]],   # unusual but valid names
     "D5": [["l1", "l2", "l3", "l4", "deep.bin"], ["l1", "l2", "mid.bin"], ["l1", "top.bin"]],
+    # names that are not NFC-stable next to siblings that sort between their raw and composed forms
+    "DNFC": [["e\u0301.bin"], ["f.bin"], ["sub", "\u212a-scale.dat"], ["sub", "notes.txt"]],
+    "DS": [["@"]],                     # a directory whose only file carries the directory's own name
 }
 
 
@@ -67,10 +70,11 @@ def gen_trees(tier, rng, plens, quick_n, thorough_n, need_nonempty=True):
             out.append((rng.choice(("S1", "D1")), (npc * P0 + dl,), P0))
     # large piece lengths (what the automatic choice gives for big payloads)
     M = 2 ** 20
-    for Pbig, szs in ((2 * M, (3 * M,)), (2 * M, (2 * M + 1, 5)), (M, (M + 5, 3)), (4 * M, (5 * M + 1,))):
-        out.append(("S1" if len(szs) == 1 else "D2", szs, Pbig))
+    for Pbig, szs in ((2 * M, (3 * M,)), (2 * M, (2 * M + 1, 5)), (M, (M + 5, 3)), (4 * M, (5 * M + 1,)),
+                      (8 * M, (M + 7, 9 * M + 3, 100 * 1024))):      # a piece reaching > 4 MiB into the next file
+        out.append(({1: "S1", 2: "D2", 3: "D3"}[len(szs)], szs, Pbig))
     n = thorough_n if tier == "thorough" else quick_n
-    shapes = ["D3", "D4", "D2n", "D2", "DN", "DNf", "DC", "DU", "D5"]
+    shapes = ["D3", "D4", "D2n", "D2", "DN", "DNf", "DC", "DU", "D5", "DNFC", "DS"]
     for _ in range(n):
         P = rng.choice(plens)
         A = alphabet(P)
